@@ -208,6 +208,11 @@ class Conc(KVStream):
         return None
 
     def verdict_predicate(self, op, impl, model, cov):
+        f0 = op.split("\t")
+        if len(f0) > 1 and f0[0] not in ("conc", "mode", "confwrite", "confread") and model == "err:badpath" and not impl.startswith("err:badpath"):
+            return {"what": "request %s under the name %r, which is not in cleaned form (an alias of secret %r: shared metadata, "
+                            "separate version data), was served: %s" % (f0[0], f0[1], "/".join(x for x in f0[1].split("/") if x), impl[:120]),
+                    "signature": "noncanonical-secret-name-served"}
         # the `conc` line carries the answers the real code gave to concurrent requests + what it left behind; the driver
         # searches an order of those requests under which the SEQUENTIAL register specification gives every request
         # the answer it got.  When the sequential stream of this very run agreed with the code on every request, the
